@@ -39,7 +39,7 @@ ASSUMPTIONS = ["CPython semantics of str.split/int/base64.b16decode/struct and d
                "(stated with a witness), still compared with the model",
                "os.listdir order is controlled by the harness; the owner reported for a multiply-held TCP/UDP socket may be any holder"]
 EXHAUSTIVE = {"quick": "kind x (family,type): all 11 kinds over a state holding one socket of each of tcp4/tcp6/udp4/udp6/unix-stream/"
-                       "unix-dgram/unix-seqpacket; all 11 TCP states; every byte value 0..255 at one position of a v4 and a v6 address",
+                       "unix-dgram/unix-seqpacket/unix type 3/unix type 7; all 11 TCP states; every byte value 0..255 at one position of a v4 and a v6 address",
               "thorough": "all 11 kinds x 7 (family,type) classes; all 11 TCP states x {v4,v6}; every byte value 0..255 at every one of the "
                           "4 (v4) and 16 (v6) address positions, both byte orders; ports 0..65535 step 257 plus borders"}
 
@@ -101,7 +101,7 @@ def _usock(rng, inode, lead_ws=False):
     r = rng.random()
     p = (rng.choice(LEAD_WS_PATHS) if lead_ws or r < 0.05 else rng.choice(ODD_PATHS) if r < 0.17 else
          rng.choice(LF_PATHS) if r < 0.19 else rng.choice(PATHS))
-    return {"type": rng.choice([1, 1, 2, 5]), "inode": inode, "path": None if p is None else p.hex(),
+    return {"type": rng.choice([1, 1, 2, 5, 5, 3, 7, 0, 4, 9]), "inode": inode, "path": None if p is None else p.hex(),
             "ref": rng.choice([2, 3]), "flags": rng.choice([0, 0x10000]), "st": rng.choice([1, 3]),
             "xpad": rng.choice([0, 0, 0, 2])}
 
@@ -235,8 +235,8 @@ def _all_classes_state():
                 "uid": 0, "tail": " 1 0000000000000000 100 0 0 10 0", "xpad": 0}
     st = {"tcp4": [isk(False, 10, 101)], "tcp6": [isk(True, 10, 102)], "udp4": [isk(False, 7, 103)], "udp6": [isk(True, 7, 104)],
           "unix": [{"type": t, "inode": 105 + i, "path": (b"/run/s%d" % t).hex(), "ref": 2, "flags": 0, "st": 1, "xpad": 0}
-                   for i, t in enumerate((1, 2, 5))],
-          "procs": [{"pid": 10, "visible": True, "fds": [{"fd": 3 + i, "t": ["sock", 101 + i]} for i in range(7)]},
+                   for i, t in enumerate((1, 2, 5, 3, 7))],     # stream, dgram, seqpacket, SOCK_RAW (a member), 7 (no member)
+          "procs": [{"pid": 10, "visible": True, "fds": [{"fd": 3 + i, "t": ["sock", 101 + i]} for i in range(9)]},
                     {"pid": 20, "visible": True, "fds": [{"fd": 0, "t": ["other", "/dev/null"]}]}]}
     return st
 
@@ -516,7 +516,7 @@ def _isock_term(s, idx, wide):
 
 
 def _usock_term(u):
-    ty = {1: "UStream", 2: "UDgram", 5: "USeqpacket"}[u["type"]]
+    ty = {1: "UStream", 2: "UDgram", 5: "USeqpacket"}.get(u["type"], "(UOther %d)" % u["type"])
     path = "None" if u["path"] is None else "(Some %s)" % G.by(bytes.fromhex(u["path"]))
     if "raw" in u:       # a record parsed from the running kernel's file
         r = u["raw"]
@@ -818,14 +818,35 @@ def judge(case, coq, impl):
 
 # ------------------------------------------------------------------ implementation side
 def _conv_addr(a, fam):
-    if a == ():
+    """Type-aware: the empty tuple itself, an `addr` named tuple (ip str, port int), or a str (UNIX name / '')."""
+    if type(a) is tuple and a == ():
         return T("Empty")
     if isinstance(a, tuple):
-        if type(a).__name__ != "addr" or a._fields != ("ip", "port"):
+        if type(a).__name__ != "addr" or a._fields != ("ip", "port") or type(a.ip) is not str or type(a.port) is not int:
             return T("BadAddr", type(a).__name__)
         f = socket.AF_INET if fam == AF_INET else socket.AF_INET6
         return [B(socket.inet_pton(f, a.ip)), a.port]
+    if type(a) is not str:
+        return T("BadAddr", type(a).__name__)
     return B(os.fsencode(a))
+
+
+def conv_family(x):
+    """The CLASS of the value is part of the observation: an IntEnum member compares equal to its number."""
+    if isinstance(x, socket.AddressFamily):
+        return T("AddressFamily", int(x))
+    return T("int", x) if type(x) is int else T("BadFamily", type(x).__name__)
+
+
+def conv_kind(x):
+    if isinstance(x, socket.SocketKind):
+        return T("SocketKind", int(x))
+    return T("int", x) if type(x) is int else T("BadType", type(x).__name__)
+
+
+def conv_status(x, psutil):
+    consts = {v for k, v in vars(psutil).items() if k.startswith("CONN_") and type(v) is str}
+    return B(x) if type(x) is str and x in consts else T("BadStatus", repr(x))
 
 
 def _conv_rows(per_process):
@@ -840,10 +861,13 @@ def _conv_rows(per_process):
             if type(r).__name__ != name or r._fields != fields:
                 out.append(T("BadTuple", type(r).__name__))
                 continue
-            fam = int(r.family)
-            row = [r.fd, fam, int(r.type), _conv_addr(r.laddr, fam), _conv_addr(r.raddr, fam), B(r.status)]
+            import psutil
+            fam = int(r.family) if isinstance(r.family, int) else -1
+            fd = r.fd if type(r.fd) is int else T("BadFd", type(r.fd).__name__)
+            row = [fd, conv_family(r.family), conv_kind(r.type), _conv_addr(r.laddr, fam), _conv_addr(r.raddr, fam),
+                   conv_status(r.status, psutil)]
             if not per_process:
-                row.append(r.pid)
+                row.append(r.pid if r.pid is None or type(r.pid) is int else T("BadPid", type(r.pid).__name__))
             out.append(row)
         return _canon_rows(Val(out))["a"][0]
     return conv
@@ -893,7 +917,7 @@ def impl_run(case, coq, env):
             res = _run_tables(case, coq, env, psutil, fakeproc)
             if k == "live":
                 # the same question over the REAL /proc, for sockets opened in this process
-                probs, _missing = live.real_proc_problems(psutil, env["work"], _conv_rows(False), _conv_rows(True), B)
+                probs, _missing = live.real_proc_problems(psutil, env["work"], _conv_rows(False), _conv_rows(True), B, T)
                 res = res + [probs]
             return res
     finally:
@@ -1028,7 +1052,8 @@ MANIFEST = {
             "splits its record in the kernel's output and is the one excluded class, stated with a witness --, any descriptor tables incl. "
             "sockets shared between processes, hidden "
             "processes, absent IPv6 files) and every kind, system-wide and per process: the sequence of set.add() calls is in bijection with the "
-            "demanded rows (none missing, none twice; admissible owner, (None,-1) when no holder is visible, one row per holder for UNIX sockets, "
+            "demanded rows (none missing, none twice; family and type ARE the socket.AddressFamily / socket.SocketKind members -- SOCK_SEQPACKET, not "
+            "the bare 5 -- and a number without a member stays a plain int; admissible owner, (None,-1) when no holder is visible, one row per holder for UNIX sockets, "
             "TCP/UDP: first holder in scan order), the returned list is the duplicate-free set of them (duplicate-freeness holds for EVERY input), "
             "and exactly the existing tables of the kind are opened, each once -- none when the process holds no socket; (4) without IPv6 support "
             "the IPv4/UNIX rows are unchanged and only IPv6 sockets with both ports 0 remain; (5) RuntimeError is raised exactly for TCP/UDP lines "
